@@ -283,6 +283,7 @@ SpecsShare(s) ==
   { Sp(ty, "v4", "S", sk, p, etp, "x", <<>>, "") :
       ty \in {"LB"}, sk \in {"", "k1"}, p \in {{"tcp80"}, {"tcp443"}}, etp \in {"Cluster"} }
   \cup { Sp("LB", "v4", "S", "k1", {"tcp80"}, "Local", IF s = "s1" THEN "x" ELSE "y", <<>>, ""),
+         Sp("LB", "v4", "S", "k1", {"tcp443"}, "Local", "", <<>>, ""),     \* Local policy, selector-less Service
          Sp("CIP", "v4", "S", "", {"tcp80"}, "Cluster", "x", <<>>, "") }
 (* requests: explicit addresses / pool *)
 SpecsReq(s) ==
